@@ -308,9 +308,15 @@ def run(R, env):
                                 verdicts.append(ok2)
                         if verdicts and all(verdicts):
                             how = "guarded / justified at every call site"
-                    if how is None and den[0] == "param" and b.kind == "fn":
+                    def _root(x):
+                        while x[0] == "field":
+                            x = x[1]
+                        return x
+                    if how is None and _root(den)[0] == "param" and b.kind == "fn":
                         # relational form: the helper returns early unless some argument N is non-zero, and every caller
-                        # has established den >= N before the call: den >= N > 0
+                        # has established den >= N before the call: den >= N > 0.  den may be a field of an argument
+                        # (`self.liquid` of a value type built by the caller): it is read in the caller's terms.
+                        from engine.analysis import resolve_terms as _rt16
                         nz_args = []
                         for a_ in args:
                             if a_[0] == "param" and a_ != den:
@@ -318,7 +324,14 @@ def run(R, env):
                                 if bi not in wz.T.reach:
                                     nz_args.append(a_)
 
-                        def caller_ok(key, di_, ni_, depth_=2):
+                        def subst(x, m_):
+                            if not isinstance(x, tuple) or not x:
+                                return x
+                            if x[0] == "param" and x[1] in m_:
+                                return m_[x[1]]
+                            return tuple(subst(y, m_) if isinstance(y, tuple) else y for y in x)
+
+                        def caller_ok(key, den_, N_, depth_=2):
                             vs = []
                             for cb2 in prog.fn_bodies():
                                 if "::tests::" in cb2.key or cb2.crate not in ("staking", "treasury", "milky_way"):
@@ -331,9 +344,10 @@ def run(R, env):
                                         continue
                                     cc2 = Ctx(cb2)
                                     ix = len(cb2.blocks[cbi]["stmts"])
-                                    aD, aN = cc2.T.operand(ct["args"][di_], cbi, ix), cc2.T.operand(ct["args"][ni_], cbi, ix)
-                                    if aD[0] == "param" and aN[0] == "param" and depth_ > 0 and cb2.kind == "fn":
-                                        vs.append(caller_ok(cb2.key, aD[1] - 1, aN[1] - 1, depth_ - 1))  # a wrapper that passes its own arguments on
+                                    m_ = {i_ + 1: cc2.T.operand(a2_, cbi, ix) for i_, a2_ in enumerate(ct["args"])}
+                                    aD, aN = _rt16(prog, subst(den_, m_), 2), _rt16(prog, subst(N_, m_), 2)
+                                    if _root(aD)[0] == "param" and aN[0] == "param" and depth_ > 0 and cb2.kind == "fn":
+                                        vs.append(caller_ok(cb2.key, aD, aN, depth_ - 1))  # a wrapper that passes its own arguments on
                                         continue
                                     rem_, n_ = set(), 0
                                     for abi, atom in cc2.atoms():
@@ -352,7 +366,7 @@ def run(R, env):
                             return bool(vs) and all(vs)
 
                         for N_ in nz_args:
-                            if caller_ok(k, den[1] - 1, N_[1] - 1):
+                            if caller_ok(k, den, N_):
                                 how = "den >= N established by every caller and N != 0 here"
                                 break
                     if how is None:
